@@ -55,7 +55,7 @@ type sessInfo struct {
 }
 
 type world struct {
-	c   *corr.Ctx
+	c   *rctx
 	sc  *Scenario
 	udp bool
 
@@ -182,7 +182,7 @@ func (w *world) OnStreamWriteError(*gortsplib.ServerHandlerOnStreamWriteErrorCtx
 
 // ---- world ------------------------------------------------------------------------------------------
 
-func newWorld(c *corr.Ctx, sc *Scenario, udp bool) *world {
+func newWorld(c *rctx, sc *Scenario, udp bool) *world {
 	w := &world{c: c, sc: sc, udp: udp, conns: map[int]*connInfo{}, clock: 1000}
 	w.vl = newVListener(&net.TCPAddr{IP: net.ParseIP(vHost).To4(), Port: 8554})
 	w.rtpPC = newFakePC(&net.UDPAddr{IP: net.ParseIP(vHost).To4(), Port: 8000})
@@ -357,9 +357,25 @@ func (w *world) victimView(si *sessInfo) string {
 		st.InboundBytes, st.InboundRTCPPackets, si.rtpCb, si.rtcpCb, gortsplib.VerifPeerSessionUDPLastPacketTime(si.ss))
 }
 
+func (w *world) allSessions() []*sessInfo {
+	w.mu.Lock()
+	defer w.mu.Unlock()
+	return append([]*sessInfo(nil), w.sessions...)
+}
+
+// endedView: what can still be observed of a session after its end (statistics, callbacks,
+// last-packet time): traffic that arrives afterwards must not move any of it.
+func (w *world) endedView(si *sessInfo) string {
+	st := si.ss.Stats()
+	return fmt.Sprintf("ended in=%d rtpIn=%d rtcpIn=%d rtpErr=%d rtcpErr=%d rtpCb=%d rtcpCb=%d lastPkt=%d",
+		st.InboundBytes, st.InboundRTPPackets, st.InboundRTCPPackets, st.InboundRTPPacketsInError, st.InboundRTCPPacketsInError,
+		si.rtpCb, si.rtcpCb, gortsplib.VerifPeerSessionUDPLastPacketTime(si.ss))
+}
+
+// mediaBytes: inbound bytes per (session, media) of every session that ever existed
 func (w *world) mediaBytes() map[[2]int]uint64 {
 	out := map[[2]int]uint64{}
-	for _, si := range w.liveSessions() {
+	for _, si := range w.allSessions() {
 		st := si.ss.Stats()
 		var medias []*description.Media
 		if ad := si.ss.AnnouncedDescription(); ad != nil {
@@ -387,7 +403,7 @@ func rtpPacket(pt uint8, seq uint16) []byte {
 	return b
 }
 
-func runSess(c *corr.Ctx, sc *Scenario) {
+func runSess(c *rctx, sc *Scenario) {
 	udp := sc.Cfg != "noudp"
 	w := newWorld(c, sc, udp)
 	defer w.close()
@@ -570,8 +586,12 @@ func runSess(c *corr.Ctx, sc *Scenario) {
 			ip := unhexIP(op.IP)
 			before := w.mediaBytes()
 			views := map[int]string{}
-			for _, si := range w.liveSessions() {
-				views[si.idx] = w.victimView(si)
+			for _, si := range w.allSessions() {
+				if si.dead {
+					views[si.idx] = w.endedView(si)
+				} else {
+					views[si.idx] = w.victimView(si)
+				}
 			}
 			seq++
 			pc, payload := w.rtcpPC, rtcpRR
@@ -608,6 +628,11 @@ func runSess(c *corr.Ctx, sc *Scenario) {
 						port++
 					}
 					st := si.ss.State()
+					if si.dead {
+						viol(c, sc, "datagrams that arrive after the end of a session do not reach it (callbacks, statistics, timeouts)",
+							"dgram-after-end-delivered", fmt.Sprintf("op %d: %s datagram from %s:%d reached session %d media %d, which had already ended (%v)",
+								i, op.Chan, ip, op.Port, si.idx, hit[0][1], si.err))
+					}
 					if a.IP.Equal(ip) && okp && port == op.Port && a.Zone != op.Zone {
 						viol(c, sc, "UDP datagrams are delivered to a session only if they come from the IP address negotiated for that session (a scoped IPv6 address includes its zone)",
 							"dgram-foreign-zone-delivered", fmt.Sprintf("op %d: %s datagram from %s%%%s:%d reached session %d whose author is %s%%%s",
@@ -623,11 +648,17 @@ func runSess(c *corr.Ctx, sc *Scenario) {
 					c.Dist("xdgram-dropped")
 				}
 				// every session that did not receive it is untouched (callbacks, stats, last-packet time)
-				for _, si := range w.liveSessions() {
+				for _, si := range w.allSessions() {
 					if len(hit) >= 1 && hit[0][0] == si.idx {
 						continue
 					}
-					if v := w.victimView(si); v != views[si.idx] {
+					v := ""
+					if si.dead {
+						v = w.endedView(si)
+					} else {
+						v = w.victimView(si)
+					}
+					if v != views[si.idx] {
 						viol(c, sc, "datagrams from any other source are ignored and do not affect its callbacks, statistics or timeouts",
 							"dgram-side-effect", fmt.Sprintf("op %d: %s datagram from %s:%d changed session %d: %q -> %q", i, op.Chan, ip, op.Port, si.idx, views[si.idx], v))
 					}
